@@ -109,7 +109,8 @@ WsgiRpcOf(ML, BL, LEN, DECL) ==
                   declared : {Absent, Empty} \cup DECL],
            inj : WsgiInj, abort : {NoAbort, 0, 1}] :
       /\ (s.req.class # "valid" => s.inj = NoInj) }
-WsgiRpcScenarios == IF ScenSet = "wsgitiny" THEN WsgiRpcOf({2}, {1}, 1..2, {1, 3})
+\* (block sizes that do and do not divide the limit, and one larger than the limit)
+WsgiRpcScenarios == IF ScenSet = "wsgitiny" THEN WsgiRpcOf({2}, {1, 3}, 1..2, {1, 3})
                     ELSE IF ScenSet = "wsgiq" THEN WsgiRpcOf({2}, {1, 3}, 1..3, 0..4)
                                          ELSE WsgiRpcOf({2, 4}, {1, 3}, 1..5, 0..6)
 \* a ?wsdl fetch is a GET: no body, no injection; "wsdlerr": building the document fails
@@ -411,6 +412,7 @@ CloseAfterBody == PP!CloseAfterBody(ev, K)
 WsgiCloseOnce  == PP!WsgiCloseOnce(ev, K)
 ReadBound      == PP!ReadBound(ev, K)
 TooLongRefused == PP!TooLongRefused(ev, K)
+WithinLimitRead == PP!WithinLimitRead(ev, K)
 NoFnOnInFault  == PP!NoFnOnInFault(ev, K)
 BadReqIsClient == PP!BadReqIsClient(ev, K)
 StatusTable    == PP!StatusTable(ev, K)
